@@ -23,6 +23,7 @@ def tu_for(tracking):
     s += 'namespace vf { auto root_at(const %s& in, const position& p) { return in.at( p ); } }\n' % it
     s += 'namespace vf { auto root_bol(const %s& in, const position& p) { return in.begin_of_line( p ); } }\n' % it
     s += 'namespace vf { auto root_pos(const %s& in) { return in.position(); } }\n' % it
+    s += 'namespace vf { auto root_eol(const %s& in, const position& p) { return in.end_of_line( p ); } }\n' % it
     return s
 
 
@@ -33,6 +34,19 @@ size_t g_k, g_bol, g_byte0, g_col0, g_q;   /* ghost: offset of the position, sta
 #define EOLCH '\\n'
 #define RETP __CPROVER_return_value
 '''
+
+EOLSTART_DEF = '''
+/* a line ending of the policy lf_crlf starts at offset q of the window */
+#define EOLSTART(q) (g_buf[q] == '\\n' || (g_buf[q] == '\\r' && (q) + 1 < g_n && g_buf[(q) + 1] == '\\n'))
+'''
+
+# trusted models of the library searches an implementation of end_of_line may use instead of the until<> loop
+STD_FIND = Contract(R('__CPROVER_same_object(__first, __last) && OFF(__first) <= OFF(__last) && __CPROVER_same_object(__first, g_buf) && OFF(__last) <= g_n && __CPROVER_r_ok(__val, 1)', 'model-std-find-range'),
+                    A(''),
+                    E('__CPROVER_same_object(RETP, __first) && OFF(RETP) >= OFF(__first) && OFF(RETP) <= OFF(__last)', 'stub'),
+                    E('OFF(RETP) == OFF(__last) || g_buf[OFF(RETP)] == *__val', 'stub'),
+                    E('(g_q >= OFF(__first) && g_q < OFF(RETP)) ==> g_buf[g_q] != *__val', 'stub'))
+MEMCHR = None
 
 H = '''
 #undef PTRS_OK
@@ -82,6 +96,26 @@ def jobs(tier):
             out.append(Job('bol_%s_%s' % (variant, tr[0]), grp, 'bol', con, ('C19',), prelude=prelude(tr) + PRE,
                            harness=H % {'it': it, 'setup': setup, 'call': '$ENTRY(&in, &p)'}, expect_fail_canary=('canary_exit',),
                            desc='memory_input<%s>::begin_of_line(position), initial counters %s' % (tr, variant)))
+        # end_of_line(): first offset e >= g_k where the line ends under the input's eol policy (lf_crlf: "\n" or "\r\n") or the
+        # input ends; the real body builds a lazy sub-input and runs until< at< eolf > > on it (loop contract on that loop)
+        frm = ('__CPROVER_r_ok(self, sizeof(*self)) && g_n <= MAXN && PTRS_OK_BASE(self) && __CPROVER_r_ok(IN_BEGIN(self), g_n) && __CPROVER_r_ok(p, sizeof(*p))'
+               ' && IN_BEGIN(self) == g_buf && g_byte0 == 0 && g_col0 == 1 && g_k <= g_n && p->byte == g_byte0 + g_k && vf_exc.pending == 0')
+        con = Contract(R(frm, 'position-from-this-input'), A('vf_exc, vf_exc_counter'),
+                       E('__CPROVER_same_object(RETP, IN_BEGIN(self)) && OFF(RETP) >= g_k && OFF(RETP) <= g_n', 'END-OF-LINE-INSIDE-THE-INPUT-AT-OR-AFTER-THE-POSITION', ('C19', 'C03')),
+                       E('OFF(RETP) == g_n || EOLSTART(OFF(RETP))', 'END-OF-LINE-STOPS-AT-A-LINE-ENDING-OR-THE-END-OF-INPUT', ('C19',)),
+                       E('(g_q >= g_k && g_q < OFF(RETP)) ==> !EOLSTART(g_q)', 'END-OF-LINE-SKIPS-NO-LINE-ENDING', ('C19',)),
+                       E('vf_exc.pending == 0', 'END-OF-LINE-NEVER-RAISES', ('C19',)),
+                       E('vf_canary', 'canary_exit'))
+        CURL = 'in->_b0.m_current'
+        inv = ('__CPROVER_assigns(%(c)s)\n__CPROVER_loop_invariant(__CPROVER_same_object(%(c)s, g_buf) && OFF(%(c)s) >= g_k && OFF(%(c)s) <= g_n && vf_exc.pending == 0'
+               ' && in->_b0.m_end == __CPROVER_loop_entry(in->_b0.m_end) && __CPROVER_same_object(in->_b0.m_end, g_buf) && OFF(in->_b0.m_end) == g_n && OFF(g_buf) == 0'
+               ' && ((g_q >= g_k && g_q < OFF(%(c)s)) ==> !EOLSTART(g_q)))\n__CPROVER_decreases(g_n - OFF(%(c)s))') % {'c': CURL}
+        out.append(Job('eol_default_%s' % tr[0], grp, 'eol', con, ('C19', 'C03'), prelude=prelude(tr) + PRE + EOLSTART_DEF,
+                       harness=H % {'it': it, 'setup': setup + ' __CPROVER_assume(g_byte0 == 0 && g_col0 == 1); vf_exc.pending = 0;', 'call': '$ENTRY(&in, &p)'},
+                       loops={(r'^bool tao::pegtl::internal::until<tao::pegtl::internal::at<tao::pegtl::internal::eolf> ?>::match<', 1, 'opt'): inv},
+                       stubs=[(r'std::find<char const\*, char>\(', STD_FIND, 'opt')],
+                       expect_fail_canary=('canary_exit',),
+                       desc='memory_input<%s>::end_of_line(position) (eol policy lf_crlf), real until< at< eolf > > on the lazy sub-input under a loop contract' % tr))
         # position(): eager = the iterator fields; lazy = bump from the beginning, starting from the initial counters
         if tr == 'eager':
             con = Contract(R('__CPROVER_r_ok(self, sizeof(*self)) && g_n <= MAXN && PTRS_OK_BASE(self) && CNT_OK(self) && __CPROVER_w_ok(_sret, sizeof(*_sret))', 'pre'),
